@@ -18,41 +18,49 @@
 (* harness replays against the real generator).  The generator is abstracted by the set Leaks of   *)
 (* configuration dimensions its result depends on (plus dependence on the pre-existing content).   *)
 (*   M1 (MC_Determinism):   with Leaks = {} every history satisfies OneDigest;                     *)
-(*   M2 (plan adequacy):    for EVERY non-empty Leaks \subseteq Dims the plan exposes it, i.e.      *)
-(*                          OneDigest is violated -- checked for all 63 leak sets at once by       *)
-(*                          letting TLC choose Leaks in Init;  the plan is feasible (a run that    *)
-(*                          asks for stale output / a warm cache comes after a run that left it);  *)
+(*   M2 (plan adequacy):    for EVERY dependence of the front end (whose result is cached) and/or  *)
+(*                          of the back end on the dimensions the plan exposes it, i.e. OneDigest  *)
+(*                          is violated -- checked for all 32 x 64 leak pairs at once by letting   *)
+(*                          TLC choose them in Init;  the plan is feasible (a run that asks for    *)
+(*                          stale output / a warm cache comes after a run that left it);           *)
 (*   M3 (thorough plan):    the plan is a pairwise covering array of the dimensions.               *)
 (* V  (DeterminismTrace):  the digests observed from the real generator for every history.         *)
 (***************************************************************************************************)
 EXTENDS DeterminismPlan
 
 (* the machine ------------------------------------------------------------------------------------ *)
-CONSTANT Plan, LeakSets   \* LeakSets: the sets of dimensions the abstract generator may depend on (TLC picks one in Init)
+\* The abstract generator has a front end (model -> symbol table, whose result is cached) and a back end.  Each may
+\* depend on some dimensions of the configuration: leaks = [f |-> front-end leaks, b |-> back-end leaks].
+\* A run with a warm cache re-uses the front-end result of the run that filled the cache: a front-end dependence
+\* (e.g. on the hash seed) is only visible between two runs that both start with a cold cache.
+CONSTANT Plan, LeakSets   \* LeakSets: the dependences the abstract generator may have (TLC picks one in Init)
 VARIABLES k,        \* number of runs done
           leaks,    \* the dependence of the abstract generator (fixed per behaviour)
           dirs,     \* loc -> "empty" | "output" : what earlier runs left in the two output directories
           warm,     \* has an earlier run filled the model cache?
+          cached,   \* the front-end result stored in the model cache (meaningful when warm)
           digests   \* sequence of the digests of the runs so far
 
-vars == <<k, leaks, dirs, warm, digests>>
+vars == <<k, leaks, dirs, warm, cached, digests>>
+FrontDims == Dims \ {"cache"}
+AllLeaks == [f : SUBSET FrontDims, b : SUBSET Dims]
+NoLeaks == {[f |-> {}, b |-> {}]}
 
-\* the digest of the abstract generator: the projection of the configuration on what it depends on
-DigestOf(c, L) == [d \in L |-> c[d]]
-
+Proj(c, L) == [d \in L |-> c[d]]
 \* the harness can set up "stale" only if a previous run left output in that directory, "warm" only after some run;
 \* it can always empty the directory / the cache or put unrelated files there
 Feasible(c) ==
     /\ c.pre = "stale" => dirs[c.loc] = "output"
     /\ c.cache = "warm" => warm
 
-Init == /\ k = 0 /\ leaks \in LeakSets /\ dirs = [l \in Values.loc |-> "empty"] /\ warm = FALSE /\ digests = <<>>
+Init == /\ k = 0 /\ leaks \in LeakSets /\ dirs = [l \in Values.loc |-> "empty"] /\ warm = FALSE /\ cached = [d \in {} |-> ""] /\ digests = <<>>
 Run == /\ k < Len(Plan)
-       /\ LET c == Plan[k + 1] IN
-          /\ Feasible(c)
-          /\ digests' = Append(digests, DigestOf(c, leaks))
-          /\ dirs' = [dirs EXCEPT ![c.loc] = "output"]
-          /\ warm' = TRUE
+       /\ LET c == Plan[k + 1]
+              front == IF c.cache = "warm" THEN cached ELSE Proj(c, leaks.f)
+          IN /\ Feasible(c)
+             /\ digests' = Append(digests, [front |-> front, back |-> Proj(c, leaks.b)])
+             /\ cached' = front /\ warm' = TRUE
+             /\ dirs' = [dirs EXCEPT ![c.loc] = "output"]
        /\ k' = k + 1 /\ UNCHANGED leaks
 Done == k = Len(Plan) /\ UNCHANGED vars
 Next == Run \/ Done
@@ -64,8 +72,9 @@ OneDigest == \A i, j \in DOMAIN digests : digests[i] = digests[j]
 PlanFeasible == k < Len(Plan) => Feasible(Plan[k + 1])
 \* the whole plan gets executed
 Completes == <>(k = Len(Plan))
-\* adequacy: at the end of the plan a generator that depends on anything has been exposed
-Exposed == k = Len(Plan) /\ leaks # {} => ~OneDigest
+\* adequacy: at the end of the plan a generator that depends on anything -- in its front end or in its back end --
+\* has been exposed
+Exposed == k = Len(Plan) /\ (leaks.f # {} \/ leaks.b # {}) => ~OneDigest
 \* soundness of the model: a generator that depends on nothing always passes
-CleanPasses == leaks = {} => OneDigest
+CleanPasses == leaks.f = {} /\ leaks.b = {} => OneDigest
 ====
